@@ -98,6 +98,9 @@ type pathState struct {
 	freshSeq int
 	allocLimit int64
 	decCache   map[decKey][]value
+	slicing    bool
+	atomSeen   map[int32]bool
+	allAtoms   []*Term
 }
 
 // freshAtom returns an unconstrained atom with a path-local deterministic
@@ -226,6 +229,18 @@ func (in *interp) assume(t *Term, b bool) {
 	p.pc = append(p.pc, c)
 	as := in.atomsOf(c)
 	p.pcAtoms = append(p.pcAtoms, as)
+	if !p.slicing {
+		in.solver.Assert(c)
+		for _, a := range as {
+			if !p.atomSeen[a.id] {
+				if p.atomSeen == nil {
+					p.atomSeen = map[int32]bool{}
+				}
+				p.atomSeen[a.id] = true
+				p.allAtoms = append(p.allAtoms, a)
+			}
+		}
+	}
 	for i := 1; i < len(as); i++ {
 		p.union(as[0].id, as[i].id)
 	}
@@ -349,7 +364,13 @@ func (in *interp) solve(extra *Term, wantModel bool, base *Model) (Result, *Mode
 	if extra != nil {
 		xa = in.atomsOf(extra)
 	}
-	cs, as := in.relevant(xa, false)
+	var cs, as []*Term
+	if in.path.slicing {
+		cs, as = in.relevant(xa, false)
+	} else {
+		// incremental mode: the path condition is already asserted
+		as = append(append([]*Term(nil), in.path.allAtoms...), xa...)
+	}
 	s.Push()
 	for _, c := range cs {
 		s.Assert(c)
@@ -406,7 +427,9 @@ func (in *interp) ensureModel() {
 	var as []*Term
 	seen := map[int32]bool{}
 	for i, c := range p.pc {
-		s.Assert(c)
+		if p.slicing {
+			s.Assert(c)
+		}
 		for _, a := range p.pcAtoms[i] {
 			if !seen[a.id] {
 				seen[a.id] = true
